@@ -141,7 +141,7 @@ static void op_chunks(const Case &c) {
         else prefix_ok(c, lpc.prefix, lpc.prefix_, n);
     } else {
         ByteChunks bc; bc.chunks = arr.size(); bc.active = c.active; bc.chunk = arr.data();
-        ep::ScriptSink snk(true);
+        ep::ScriptSink snk(!c.octet_src); snk.script.steps = c.frag;   // for the encoders, octet_src / frag describe the sink: octet-style, or a chunk sink with short writes and EINTR
         ssize_t rc = flenp_chunks_to_sink((LengthPrefixKind)c.k, &snk.snk, &bc);
         if (n == 0) vp::stats().dontcare++;
         else if (n > kmax(c.k)) { if (rc >= 0) F(c, "over-maximum-accepted", "accepted"); else if (!snk.got.empty()) F(c, "refused-after-emission", "octets emitted before the refusal"); }
@@ -155,7 +155,7 @@ static void op_chunks(const Case &c) {
 }
 
 static void op_to_sink(const Case &c) {
-    ep::ScriptSink snk(true);
+    ep::ScriptSink snk(!c.octet_src); snk.script.steps = c.frag;
     if (c.op == 5) {
         size_t n = (size_t)c.n;
         vp::Block mem(n); for (size_t i = 0; i < n; i++) mem.p[i] = pay(i);
@@ -275,6 +275,14 @@ static void run_case(const Case &c) {
 }
 static Case mk(int op, int k, uint64_t n = 0) { Case c{}; c.op = op; c.k = k; c.n = n; c.active = 0; c.dec = 0; c.octet_src = false; c.capdelta = 0; c.pre_used = c.pre_off = 0; c.bsize = c.bused = c.boff = 0; return c; }
 
+// the same encoder call against sinks that accept the octets differently: all at once, one octet per call, short writes mixed with EINTR, octet-style
+static void run_sinks(Case c) {
+    run_case(c);
+    c.frag.assign(24, 1); run_case(c);
+    c.frag = {-EINTR, 2, -EINTR, -EINTR, 1, 3, 1, -EINTR, 2}; run_case(c);
+    c.frag.clear(); c.octet_src = true; run_case(c);
+    vp::cls("encoder-into-sink-with-short-writes");
+}
 static void run() {
     auto &a = vp::args();
     vp::CaseScope scope([] { return ser(g_cur); });
@@ -295,7 +303,7 @@ static void run() {
         for (uint64_t n : lens) {
             if (!mine()) continue;
             if (n <= 300 || n % 7 == 0 || n > 1100) { run_case(mk(1, k, n)); }
-            run_case(mk(5, k, n));
+            if (n <= 40 || n % 64 < 2 || n > 1100) run_sinks(mk(5, k, n)); else run_case(mk(5, k, n));
             if (n >= 128 || n > kmax(k)) vp::nontrivial(vp::mix(n, k));
             vp::cls(n > kmax(k) ? "length-over-maximum" : "length-in-range");
         }
@@ -309,8 +317,8 @@ static void run() {
     for (int k = 0; k < 6; k++)
         for (size_t size = 1; size <= maxbuf; size++) for (size_t used = 0; used <= size; used++) for (size_t off = 0; off <= used; off++) {
             if (!mine()) continue;
-            for (int op : {2, 6}) { Case c = mk(op, k); c.bsize = size; c.bused = used; c.boff = off; run_case(c); }
-            for (size_t n = 0; n <= used - off + 1; n++) for (int op : {3, 7}) { Case c = mk(op, k, n); c.bsize = size; c.bused = used; c.boff = off; run_case(c); if (vp::want_sample()) vp::sample(ser(c)); }
+            for (int op : {2, 6}) { Case c = mk(op, k); c.bsize = size; c.bused = used; c.boff = off; if (op == 6) run_sinks(c); else run_case(c); }
+            for (size_t n = 0; n <= used - off + 1; n++) for (int op : {3, 7}) { Case c = mk(op, k, n); c.bsize = size; c.bused = used; c.boff = off; if (op == 7) run_sinks(c); else run_case(c); if (vp::want_sample()) vp::sample(ser(c)); }
             if (off > 0 && used < size) { vp::nontrivial(vp::mix(vp::mix(vp::mix(size, used), off), k + 200)); vp::cls("buffer-with-offset-and-free-space"); } else vp::cls("buffer-plain");
         }
     // larger buffers (lengths across the one-octet boundary), sampled states
@@ -329,7 +337,7 @@ static void run() {
                 Case c = mk(4, k); uint64_t x = code; bool empty = false;
                 for (size_t i = 0; i < nch; i++) { c.chunks.push_back(cs[x % cs.size()]); x /= cs.size(); if (c.chunks.back()[1] == c.chunks.back()[2]) empty = true; }
                 c.active = active;
-                run_case(c); c.op = 8; run_case(c);
+                run_case(c); c.op = 8; run_sinks(c);
                 if (empty) { vp::nontrivial(vp::mix(vp::mix(code, nch), k * 2 + active + 300)); vp::cls("chunk-list-with-empty-chunk"); } else vp::cls("chunk-list-plain");
                 if (vp::want_sample()) vp::sample(ser(c));
             }
